@@ -46,6 +46,9 @@ pub fn galgorithm() -> BoxedStrategy<String> {
         3 => select(&["sha1", "SHA256", "md5", "Sha512", "a", "B", "a:b", ":", "", "é", "É", "ǅ", "sha-1", "x y"][..]).prop_map(str::to_string),
         // names of which one is a proper prefix of another, continued by a character below ':'
         2 => select(&["sha3", "sha3-256", "SHA3-512", "a1", "a-", "a.b", "a+", "a ", "sha", "sha2"][..]).prop_map(str::to_string),
+        // names that share a long prefix (16, 23, 32 bytes and more), differ in length, and are not prefixes of one another
+        2 => (select(&["blake2b-512-keyed", "sha3-512-truncated-to-256-bits", "x", "algorithm-with-a-very-long-common-prefix-0123456789"][..]), select(&["_b", "-a1", "-a", "_", "0", "-00", ".z", "+", "_bb", "-a10"][..]))
+            .prop_map(|(stem, tail)| format!("{stem}{tail}")),
         // long names (beyond the inline capacity of the small-string type) in scripts with case
         1 => select(&["ΑΒΓΔΕΖΗΘΙΚΛΜΣ", "αβγδεζηθικλμσ", "ΟΔΟΣ", "ÆB", "ÆSHA", "blake2b-512-personalised-XYZ", "SHAKE256-LONG-DIGEST-NAME-0001"][..]).prop_map(str::to_string),
         2 => gtext(0).prop_map(|s| s.chars().map(|c| if c == ',' { ';' } else { c }).collect::<String>()),
